@@ -28,6 +28,9 @@ def le1(prog, env, R, prefix, tag):
     flow = env.flow(f)
     body = f.body
     tail = body.get("expr") if body["k"] == "block" else body
+    while tail is not None and tail["k"] == "block" and "expr" in tail and all(
+            s_["k"] == "slet" and s_["pat"].get("k") == "pbind" and not s_["pat"].get("mut") for s_ in tail.get("stmts", [])):
+        tail = tail["expr"]
     ok_shape = tail is not None and tail["k"] == "index"
     if not R.judge(ok_shape, prefix + ".LE1", key(f, "result is keys[idx]" + tag), f.sp, "",
                    "undecidable-shape: get_leader does not end in an index expression", reason="undecidable-shape"):
@@ -61,7 +64,7 @@ def le1(prog, env, R, prefix, tag):
     oki = False
     howi = ir.pp(idx, maxlen=100)
     if idx["k"] == "bin" and idx["op"] == "%":
-        num, den = idx["l"], idx["r"]
+        num, den = idx["l"], ctx.origin_node(idx["r"])
         nt = ctx.term(num)
         round_ok = nt == "«u64»" or (nt.startswith("(") and "«u64»" in nt and nt.count("«u64»") == 1 and "*" not in nt and "/" not in nt)
         dt = ctx.term(den)
